@@ -10,8 +10,8 @@ Function by function, in the order of the Go sources:
   minimal `fscore` (`PickSpec` in Spec.lean is the contract the theorems assume; `pickMin` below
   is the instance the driver runs).  gonum is pinned by its go.sum hash (see checks/C19.py).
 * `Net`, `newNode`, `addLink`, `weightOf`, `uniformCost`, `fromOf`, `heuristic`, `shortestRoute` :
-  `route/route.go` AFTER the two `fix:` commits (Weight has gonum's signature, the time heuristic
-  divides by the MAXIMUM speed).  Which weighting gonum picks is the explicit boolean
+  `route/route.go` AFTER the three `fix:` commits (Weight has gonum's signature, the time heuristic
+  divides by the MAXIMUM speed, the heuristic's distance is multiplied by `heuristicScale`).  Which weighting gonum picks is the explicit boolean
   `implementsWeighted` (Go interface satisfaction is not visible to Lean; the harness reports it
   at run time and `harness/cmd/c19/weighted` asserts it at compile time).
 
@@ -171,6 +171,9 @@ structure Net (α : Type) where
   edges : List (MEdge α) := []
   maxID : Nat := 0
   maxSpeed : α
+  /-- `heuristicScale` (fix 3): the largest factor ≤ 1 such that, for every link, the factor times the
+  straight-line distance between the link's end NODES does not exceed the link's length -/
+  hscale : α
 
 /-- the geometric primitives the package calls, as parameters -/
 structure Geo (α : Type) where
@@ -186,9 +189,9 @@ structure Geo (α : Type) where
   one : α
 
 section route
-variable {α : Type} [Zero α] [Add α] [Div α] [LT α] [DecidableLT α]
+variable {α : Type} [Zero α] [One α] [Add α] [Mul α] [Div α] [LT α] [DecidableLT α]
 
-def newNetwork (o : Opt) : Net α := { opt := o, maxSpeed := 0 }
+def newNetwork (o : Opt) : Net α := { opt := o, maxSpeed := 0, hscale := 1 }
 
 def hasNode (net : Net α) (id : Nat) : Bool := net.nodes.any fun n => n.id == id
 
@@ -216,7 +219,10 @@ def addLink (geo : Geo α) (net : Net α) (i : Nat) (l : Link α) : Except Fault
     else
       let net := addNode net from_
       let net := addNode net to
-      .ok { net with edges := net.edges ++ [e] }
+      -- `if nd := op.Distance(from.Point, to.Point); nd > 0 && length/nd < net.heuristicScale { … }`
+      let nd := geo.euclid from_.p to.p
+      let hs := if 0 < nd ∧ length / nd < net.hscale then length / nd else net.hscale
+      .ok { net with edges := net.edges ++ [e], hscale := hs }
   | _, _ => .error .emptyLink
 
 def buildFrom (geo : Geo α) : Net α → Nat → List (Link α) → Except Fault (Net α)
@@ -261,13 +267,13 @@ def uniformCost (geo : Geo α) (net : Net α) (x y : Nat) : Option α :=
 
 def nodePos (net : Net α) (id : Nat) : Option (Pt α) := (net.nodes.find? fun n => n.id == id).map (·.p)
 
-/-- `costHeuristic` (after the fix); unknown ids cannot occur (gonum passes graph nodes) -/
+/-- `costHeuristic` (after the fixes: maximum speed, scaled distance); unknown ids cannot occur (gonum passes graph nodes) -/
 def heuristic (geo : Geo α) (net : Net α) (x t : Nat) : α :=
   match nodePos net x, nodePos net t with
   | some p, some q =>
     match net.opt with
-    | .time => geo.euclid p q / net.maxSpeed
-    | .distance => geo.euclid p q
+    | .time => geo.euclid p q * net.hscale / net.maxSpeed
+    | .distance => geo.euclid p q * net.hscale
   | _, _ => 0
 
 def adapter (geo : Geo α) (net : Net α) (implementsWeighted : Bool) (ord : Nat → List Nat → List Nat) : Adapter α :=
